@@ -1,0 +1,10 @@
+//go:build verif
+// +build verif
+
+package btc
+
+import "math/big"
+
+// VerifTotalWork exposes the cumulative work recorded with a stored header (unexported field) to the
+// verification harness. Read-only; no behaviour change.
+func VerifTotalWork(sh *StoredHeader) *big.Int { return sh.totalWork }
